@@ -40,7 +40,9 @@ def check(ctx):
     ctx.run_engine(exe, args + ['--outdir', vlib.OUT, '--jobs', jobs], label='wait', timeout=(600 if q else 2400))
     B = fut.result()
     if not ctx.violations:
-        il.run(ctx, B, c01_only=True, mode='tpwait', names=IL_PROGS)
+        # starved variant: stream 0 never gets a task, it only polls inside parsec_taskpool_wait while stream 1 runs everything
+        # (termination detected on stream 1; the return of the wait on stream 0 anywhere inside costs one preemption)
+        il.run(ctx, B, c01_only=True, mode='tpwait', names=IL_PROGS, starve0='both', names_starve0=['il_join', 'il_chain'])
     return ctx.finish(RULE + '; ' + il.RULE, ASSUME + il.ASSUME)
 def replay(ctx, path, obj):
     if obj.get('engine') == 'cosched':
